@@ -43,6 +43,16 @@ Section Generic.
       + intros i Hi. apply H. lia.
       + replace (Datatypes.S k + n)%nat with (k + Datatypes.S n)%nat by lia. exact Hend.
   Qed.
+
+  Lemma follows_indexed0 (U V : nat -> Z) n u :
+    u = U 0%nat ->
+    (forall i, (i < n)%nat ->
+       test (U i) = true /\ pre (U i) = Some (V i) /\ next (V i) = Some (U (Datatypes.S i))) ->
+    test (U n) = false ->
+    follows (map V (seq 0 n)) u.
+  Proof.
+    intros -> H Hend. apply follows_indexed; [intros i Hi; apply H; lia | exact Hend].
+  Qed.
 End Generic.
 
 (* ---- C arithmetic that stays inside the type is exact ------------------------------------- *)
@@ -138,7 +148,8 @@ Lemma py_reversed_range_indexed a b s :
   map (fun i => a + s * (py_range_len a b s - 1) - s * Z.of_nat i) (seq 0 (Z.to_nat (py_range_len a b s))).
 Proof.
   unfold py_reversed_range, py_range. rewrite rev_map_seq. apply map_ext_in.
-  intros i Hi. apply in_seq in Hi. lia.
+  intros i Hi. apply in_seq in Hi. set (N := py_range_len a b s) in *.
+  replace (Z.of_nat (Z.to_nat N - 1 - i)) with (N - 1 - Z.of_nat i) by lia. ring.
 Qed.
 
 (* ---- forward loops -------------------------------------------------------------------------- *)
@@ -165,28 +176,28 @@ Section Fwd.
         rewrite Z.add_0_r, cop_id by assumption.
         apply c_loop_follows; [|exact Hfuel].
         unfold py_range. fold n.
-        apply (follows_indexed _ _ _ (fun i => a + s * Z.of_nat i) (fun i => a + s * Z.of_nat i)).
+        apply (follows_indexed0 _ _ _ (fun i => a + s * Z.of_nat i) (fun i => a + s * Z.of_nat i)); [cbn; lia | |].
         * intros i Hi. repeat split.
           -- cbn [rel_test]. specialize (Hin (Z.of_nat i) ltac:(lia)). lia.
           -- replace (a + s * Z.of_nat i - - s) with (a + s * Z.of_nat (Datatypes.S i)) by lia.
              apply cop_id; [assumption|].
              apply in_rangeb_spec in Hsafe.
              apply (in_range_between _ _ (a + s * n) a); try assumption. nia.
-        * cbn [rel_test plus]. rewrite Z2Nat.id by lia. lia.
+        * cbn [rel_test]. rewrite Z2Nat.id by lia. lia.
       + (* unsigned: for (t = a + A; t > b + A; ) { t -= A; *)
         apply andb_true_iff in Hsafe. destruct Hsafe as [S1 S2].
         apply in_rangeb_spec in S1. apply in_rangeb_spec in S2.
         rewrite Z.add_0_r, cop_id, carith_id by assumption.
         apply c_loop_follows; [|exact Hfuel].
         unfold py_range. fold n.
-        apply (follows_indexed _ _ _ (fun i => a + s * Z.of_nat i - s) (fun i => a + s * Z.of_nat i)).
+        apply (follows_indexed0 _ _ _ (fun i => a + s * Z.of_nat i - s) (fun i => a + s * Z.of_nat i)); [cbn; lia | |].
         * intros i Hi. specialize (Hin (Z.of_nat i) ltac:(lia)). repeat split.
           -- cbn [rel_test]. lia.
           -- replace (a + s * Z.of_nat i - s - - s) with (a + s * Z.of_nat i) by lia.
              apply cop_id; [assumption|].
              apply (in_range_between _ _ b a); try assumption. nia.
           -- f_equal. lia.
-        * cbn [rel_test plus]. rewrite Z2Nat.id by lia. lia.
+        * cbn [rel_test]. rewrite Z2Nat.id by lia. lia.
     - (* ascending: for (t = a; t < b; t += A) *)
       assert (Hpos' : 0 < s) by lia.
       destruct (len_spec_pos a b s Hpos') as (_ & Hin & Hout & Hz). fold n in Hin, Hout, Hz.
@@ -196,13 +207,13 @@ Section Fwd.
       rewrite Z.add_0_r, cop_id by assumption.
       apply c_loop_follows; [|exact Hfuel].
       unfold py_range. fold n.
-      apply (follows_indexed _ _ _ (fun i => a + s * Z.of_nat i) (fun i => a + s * Z.of_nat i)).
+      apply (follows_indexed0 _ _ _ (fun i => a + s * Z.of_nat i) (fun i => a + s * Z.of_nat i)); [cbn; lia | |].
       + intros i Hi. repeat split.
         * cbn [rel_test]. specialize (Hin (Z.of_nat i) ltac:(lia)). lia.
         * replace (a + s * Z.of_nat i + s) with (a + s * Z.of_nat (Datatypes.S i)) by lia.
           apply cop_id; [assumption|].
           apply in_rangeb_spec in Hsafe.
           apply (in_range_between _ _ a (a + s * n)); try assumption. nia.
-      + cbn [rel_test plus]. rewrite Z2Nat.id by lia. lia.
+      + cbn [rel_test]. rewrite Z2Nat.id by lia. lia.
   Qed.
 End Fwd.
